@@ -187,7 +187,7 @@ for n, lens in ((2, (3, 4, 5)), (3, (4, 5))):
                 UC("c04-opt-best-" + tag, "optimal", "opt_at_most_best::<%s>()" % shape, {"C04": tier}, "bounded", OPT_FNS,
                    "fuzzy_match_optimal: score <= maximum of the fzf scheme over all alignments (brute force)", unwind=max(h + 3, 7), bound=bound, cost=8, timeout=1500)
                 UC("c04-opt-rec-" + tag, "optimal", "opt_at_least_recurrence::<%s>()" % shape, {"C04": tier}, "bounded", OPT_FNS,
-                   "fuzzy_match_optimal: score >= naive full-matrix two-matrix recurrence", unwind=max(h + 3, 7), bound=bound, cost=8, timeout=1500)
+                   "fuzzy_match_optimal: score >= naive full-matrix two-matrix recurrence", unwind=max(h + 3, 7), bound=bound, cost=8, timeout=1500, core=(tag == "h6-n2-s1-k1"))
                 if k == 0:
                     UC("c03-opt-agree-" + tag, "optimal", "opt_agree::<%s>()" % shape, {"C03": tier, "C10": tier}, "bounded", OPT_FNS,
                        "fuzzy_match_optimal: score-only and indices variants agree (second call on the same matcher)", unwind=max(h + 3, 7), bound=bound, cost=8, timeout=1500)
